@@ -4,6 +4,7 @@
 import CorgiProofs.EngineTop
 import CorgiProofs.EngineFrame
 import CorgiModel.Step
+import CorgiProofs.Reachable
 
 set_option linter.unusedSectionVars false
 
@@ -118,6 +119,21 @@ theorem C09_clone_local (σ σ' : State S) (v w : String) (tr keep : Option Bool
         · simp [hkw]
         · simp [hkw, ih]
 
+
+/-- **Only where tracked, in every reachable state**: a completed pass in the state after any history
+    changes the gradient cell of no node that is not reachable from the root through tracked stored
+    operands. -/
+theorem C09_only_reachable {σ σ' : State S} (hr : Reachable σ) (v : String) (h : Handle)
+    (seed : Option (Tensor S)) (hg : σ.get v = .ok h) (hok : σ.backward h seed = .ok σ') :
+    ∀ m, m < σ.nodes.size → ¬ Reach σ.graph h.node m → σ'.grad.getD m none = σ.grad.getD m none := by
+  obtain ⟨e, hb, he, hwf, hl, _, _, h2, _⟩ := good_backward_counts hr.good (get_valid hr.good.roots hg) seed hok
+  intro m hm hnr
+  have := backward_frame σ.graph _ h.node h.dims h.keep seed σ.estate e hb m (fun hin => hnr ((h2 m).mp hin))
+  rw [he]
+  simp only [State.withEState]
+  rw [ofFn_getD _ _ _ _ hm, this]
+  rfl
+
 end Corgi
 
 #print axioms Corgi.C09_iff_ewise
@@ -126,3 +142,4 @@ end Corgi
 #print axioms Corgi.C09_only
 #print axioms Corgi.C09_flags_kept
 #print axioms Corgi.C09_clone_local
+#print axioms Corgi.C09_only_reachable
